@@ -346,7 +346,7 @@ def wsgi_bytes(svc, proto, name, bound, hs=()):
     return (st.get('status'), out)
 
 
-def transports_agree(check, svc, dc, bound, hs, plan, replay):
+def transports_agree(check, svc, dc, bound, hs, plan, replay, st):
     """the reply to a call does not depend on the transport: WsgiApplication sends the bytes the ServerBase
     pipeline produces (generator results are consumed differently by the two: WSGI peeks at the first item)"""
     for proto in PROTOS:
@@ -361,7 +361,9 @@ def transports_agree(check, svc, dc, bound, hs, plan, replay):
             continue        # the ServerBase side is the wire oracle's business
         if got[0] == 'escape' or got[1] != resp:
             first = 'first-item-none' if (plan[0] == 'gen' and plan[1] and plan[1][0][0] == 'none') else 'plan-' + plan[0]
-            check.fail(key_of('wsgi-vs-serverbase', proto, dc, first),
+            # inside the two regions where the wire side cannot carry the call at all (known findings) the
+            # bytes are garbage on both transports; a difference there is that finding, not a new one
+            check.fail(known_region(proto, dc, st) or key_of('wsgi-vs-serverbase', proto, dc, first),
                        '%s over %s: WsgiApplication answered %r, the ServerBase pipeline %r' % (
                            dc['name'], proto, got if got[0] == 'escape' else got[1][:300], resp[:300]),
                        dict(replay, protocol=proto, plan=plan))
@@ -976,11 +978,11 @@ def one_call(check, svc, dc, args, kw, hs, plan, cases, st, conformant, replay_e
     # ---- the transports agree (generator results: also with a null first item, which the decoders of the
     #      foreign client cannot tell from an absent one, so only the bytes are compared)
     if plan[0] == 'gen':
-        transports_agree(check, svc, dc, bound, hs, plan, replay)
-        transports_agree(check, svc, dc, bound, hs, ('gen', [('none',)] + list(plan[1])), replay)
+        transports_agree(check, svc, dc, bound, hs, plan, replay, st)
+        transports_agree(check, svc, dc, bound, hs, ('gen', [('none',)] + list(plan[1])), replay, st)
         svc.plan = plan
     elif plan[0] not in ('fault', 'exc') and check.rng.random() < 0.15:
-        transports_agree(check, svc, dc, bound, hs, plan, replay)
+        transports_agree(check, svc, dc, bound, hs, plan, replay, st)
         svc.plan = plan
     # ---- the wire paths
     for proto in PROTOS:
